@@ -178,6 +178,21 @@ class Problem(object):
             hi = fr(av + slack)
             return lo, hi, fr(S) * (1 + Fr(1, 1 << 50)), 32
 
+    def nonmonotone_on(self, a, b):
+        """True when f is certainly not monotone on [min(a,b), max(a,b)] (a sufficient test on a grid; exact for polynomials)"""
+        lo, hi = min(a, b), max(a, b)
+        if self.kind == 'poly':
+            d = pder([Fr(k) for k in self.ic])
+            sg = set()
+            for j in range(65):
+                v = peval(d, lo + (hi - lo) * Fr(j, 64))
+                if v:
+                    sg.add(v > 0)
+            return len(sg) == 2
+        if self.name == 'sin':
+            return float(lo) < math.pi / 2 - 1e-6 and float(hi) > math.pi / 2 + 1e-6      # maximum of sin strictly inside
+        return False
+
     def sign_at(self, q, p):
         """exact / reference sign of f at a real dyadic point (0 when not safely decided)"""
         if self.kind == 'poly':
@@ -305,7 +320,7 @@ def gen_scalar_problem(r, fam):
 SCALAR_FAMS = ['poly-simple', 'poly-mult', 'poly-noroot', 'poly-complex', 'cubic', 'decay',
                't:sin', 't:exp', 't:xexp', 't:cosx', 't:log', 't:atan']
 SOLVER_CELLS = [(s, f, st) for s in SCALAR_SOLVERS for f in SCALAR_FAMS for st in ('near', 'far')]
-BRACKET_FAMS = ['poly-simple', 'poly-mult3', 'poly-even', 't:sin', 't:exp', 't:xexp', 't:cosx', 't:log', 't:atan']
+BRACKET_FAMS = ['poly-simple', 'poly-mult3', 'poly-even', 'poly-multi', 'poly-multi', 't:sinhump', 't:sin', 't:exp', 't:xexp', 't:cosx', 't:log', 't:atan']
 BRACKET_CELLS = [(s, f, k) for s in BRACKET_SOLVERS for f in BRACKET_FAMS for k in ('signchange', 'signchange', 'reversed', 'nosign', 'rootatend')]
 
 
@@ -344,7 +359,25 @@ def gen_solver_case(r, i):
 def gen_bracket_case(r, i):
     solver, fam, kind = BRACKET_CELLS[i % len(BRACKET_CELLS)]
     p = _pick_p(r, i // len(BRACKET_CELLS) + 3 * i)
-    if fam.startswith('poly'):
+    if fam == 'poly-multi':
+        # several real roots: exactly one inside the bracket, the neighbours just outside -> f is not monotone on the bracket
+        rt = dyadic(r, -4, 4, 16)
+        d1, d2 = dyadic(r, Fr(1, 4), 2, 16), dyadic(r, Fr(1, 4), 2, 16)
+        c = pmul(pmul([Fr(1), -rt], [Fr(1), -(rt - d1)]), [Fr(1), -(rt + d2)])
+        if r.random() < 0.4:
+            c = pmul(c, [Fr(1), -(rt + d2 + dyadic(r, Fr(1, 4), 2, 16))])
+        if r.random() < 0.3:
+            c = pmul(c, _far_factor(r, rt)[0])
+        ic, _ = to_int_coeffs(c)
+        pspec = {'kind': 'poly', 'ic': ic, 'm': 1}
+        lo, hi = rt - d1 * Fr(31, 32), rt + d2 * Fr(31, 32)
+    elif fam == 't:sinhump':
+        # sin x - c on [a, b] with a < asin c < pi/2 < b < pi - asin c: one crossing, the maximum of sin inside
+        c = dyadic(r, Fr(1, 5), Fr(3, 5), 1 << 12)
+        pspec = {'kind': 'trans', 'name': 'sin', 'c': hexq(c)}
+        rt = Fr(math.asin(float(c))).limit_denominator(1 << 20)
+        lo, hi = Fr(-1, 2), Fr(12, 5)
+    elif fam.startswith('poly'):
         rt = dyadic(r, -4, 4, 16)
         g, gk = _far_factor(r, rt)
         m = {'poly-simple': 1, 'poly-mult3': 3, 'poly-even': 2}[fam]
@@ -367,6 +400,11 @@ def gen_bracket_case(r, i):
     if kind in ('signchange', 'reversed'):
         a = _dy(rt - w1 * Fr(r.randint(8, 1000), 1000))
         b = _dy(rt + w2 * Fr(r.randint(8, 1000), 1000))
+        if fam == 't:sinhump':
+            b = _dy(Fr(17, 10) + Fr(r.randint(0, 700), 1000))         # in [1.7, 2.4]: past the maximum at pi/2
+        if fam == 'poly-multi' and r.random() < 0.6:
+            a = _dy(rt - w1 * Fr(r.randint(600, 1000), 1000))       # reach past the local extrema next to the neighbouring roots
+            b = _dy(rt + w2 * Fr(r.randint(600, 1000), 1000))
         if kind == 'reversed':
             a, b = b, a
     elif kind == 'nosign':
@@ -451,7 +489,10 @@ def gen_multiplicity_case(r, i):
     p = _pick_p(r, i // 16 + i)
     rt = dyadic(r, -4, 4, 16)
     g, gk = _far_factor(r, rt)
-    return {'sec': 'multiplicity', 'm': m, 'form': form, 'p': p, 'r': hexq(rt), 'g': [hexq(k) for k in g]}
+    # sometimes scale f by a power of two so that its first non-vanishing derivative at r is small (2^-12..2^-4) but still far
+    # above multiplicity's absolute threshold eps^0.8
+    return {'sec': 'multiplicity', 'm': m, 'form': form, 'p': p, 'r': hexq(rt), 'g': [hexq(k) for k in g],
+            'small': r.choice([None, None, 4, 8, 12])}
 
 
 def gen_md_case(r, i):
@@ -567,8 +608,12 @@ def run_bracket(mp, rec, spec):
     ident = ('bracket', solver, spec['fam'], repr(spec['prob']), p, spec['a'], spec['b'], spec['tolk'], spec['maxsteps'])
     sa, sb = prob.sign_at(a, p), prob.sign_at(b, p)
     genuine = sa * sb < 0
+    nonmono = False
     if genuine:
         rec.cls('%s/genuine-bracket-attempted' % solver)
+        nonmono = prob.nonmonotone_on(a, b)
+        if nonmono:
+            rec.cls('%s/nonmonotone-bracket-attempted' % solver)
     with at_prec(mp, p):
         f = prob.tree_f(mp, log)
         try:
@@ -593,6 +638,9 @@ def run_bracket(mp, rec, spec):
     if genuine:
         rec.event('bracket containment decided (genuine bracket)')
         rec.cls('%s/bracket-checked' % solver)
+        if nonmono:
+            rec.cls('%s/nonmonotone-bracket-checked' % solver)
+            rec.event('containment decided on brackets where f is not monotone')
         if not inside:
             rec.violation('C29/bracket/%s/outside' % solver, 'bracketing solver returned a point outside its bracket (f(a) f(b) < 0)',
                           spec, observed=_desc(x), expected='[%s, %s]' % (flo(lo), flo(hi)))
@@ -955,21 +1003,29 @@ def run_multiplicity(mp, rec, spec):
     c = g
     for _ in range(m):
         c = pmul(c, [Fr(1), -rt])
-    ic, _ = to_int_coeffs(c)
-    gi, _ = to_int_coeffs(g)
-    ident = ('multiplicity', m, form, p, spec['r'], repr(spec['g']))
+    ic, _L = to_int_coeffs(c)
+    gi = [int(k * _L) for k in g]        # same scaling as ic
+    ident = ('multiplicity', m, form, p, spec['r'], repr(spec['g']), spec.get('small'))
     if form == 'expanded':
         # envelope: the user function's own rounding noise at the root stays far below multiplicity's threshold eps^0.8
         S = sum(abs(k) * abs(rt) ** (len(ic) - 1 - i) for i, k in enumerate(ic))
         inside = len(ic) * S * Fr(2) ** (12 - p) <= Fr(2) ** (-((4 * p) // 5))
     else:
         inside = True
+    # multiplicity's threshold eps^0.8 is ABSOLUTE: the envelope is "f scaled so that its first non-vanishing derivative at r
+    # has magnitude about 1 (small=None) or 2^-4 / 2^-8 / 2^-12, and at least 2^8 eps^0.8"; f is scaled by an exact power of two
+    D = abs(math.factorial(m) * peval([Fr(k) for k in gi], rt))       # |f^(m)(r)| of the integer-scaled polynomial
+    k2 = D.numerator.bit_length() - D.denominator.bit_length() + (spec.get('small') or 0)
+    sc = Fr(2) ** (-k2)
+    if D * sc < Fr(2) ** (8 - (4 * (p - 1)) // 5):
+        sc = Fr(2) ** (-(D.numerator.bit_length() - D.denominator.bit_length()))
     with at_prec(mp, p):
         R = mk(mp, rt)
+        SC = mk(mp, sc)
         if form == 'expanded':
-            f = lambda x: mp.polyval(ic, x)
+            f = lambda x: SC * mp.polyval(ic, x)
         else:
-            f = lambda x: (x - R) ** m * mp.polyval(gi, x)
+            f = lambda x: SC * (x - R) ** m * mp.polyval(gi, x)
         try:
             got = mp.multiplicity(f, R)
         except Exception as e:
@@ -1021,6 +1077,8 @@ def required(agg, tier):
         if not cl.get('%s/returned' % s):
             miss.append('solver %s never returned a value (nothing to verify)' % s)
     for s in BRACKET_SOLVERS:
+        if cl.get('%s/nonmonotone-bracket-checked' % s, 0) < 5:
+            miss.append('fewer than 5 results of %s on sign-change brackets where f is not monotone' % s)
         got, tried = cl.get('%s/bracket-checked' % s, 0), cl.get('%s/genuine-bracket-attempted' % s, 0)
         if not got or got < 0.2 * tried:
             miss.append('bracketing solver %s returned a result for only %d of %d genuine brackets (< 20%%): containment not observed' % (s, got, tried))
